@@ -54,6 +54,9 @@ func C08(r *core.Run) {
 	w.ruleW4()
 	w.ruleW6()
 	w.ruleEscaper()
+	// the assumption above is checked against the library source on every run
+	rules.VerbatimCopy(r, codecRel, "appendString", "google.golang.org/protobuf/internal/encoding/json", "appendString")
+	rules.VerbatimCopy(r, codecRel, "indexNeedEscapeInString", "google.golang.org/protobuf/internal/encoding/json", "indexNeedEscapeInString")
 	// dispatch order of encodeValue (X4)
 	rules.DispatchOrder(r, codecRel, "encoder.encodeValue", "lib/j5reflect")
 	// totality of the encoder path
